@@ -6,15 +6,18 @@ from . import common as K
 
 LEVEL = "other"
 EXPLANATION = (
-    "Decision-table, must-pass-through and expression-structure rules on fragmentation.rs: (F-DECIDE) fragment() "
-    "returns DontFragment with its unmodified arguments exactly on the branch total_length <= mtu, Discard exactly when "
-    "the datagram does not fit and DF is set, Fragmented otherwise; (F-MF) each split pushes a first piece whose copied "
-    "header had set_is_last_fragment(false) applied, the remainder's flags are never written and MF has no other "
-    "writer in the module, so by induction over the recursion MF is set on all pieces but the one ending the original "
-    "datagram, also under repeated fragmentation; (F-UNIT) the cut length, the first piece's total_length, the "
-    "remainder's total_length and the offset increment are the expressions NFB*8, IHL*4+NFB*8, TL-(NFB*8+..) and "
-    "FO+NFB over the same NFB = (mtu - IHL*4)/8. Not decided: that pieces fit the MTU, are contiguous and carry the right "
-    "bytes for all lengths/MTUs (16-bit arithmetic with recursion).")
+    "Both functions of fragmentation.rs are reduced to one formula each by symbolic extraction from MIR (branches -> "
+    "if-then-else, `&mut` calls -> uninterpreted functional updates, arithmetic -> canonical linear forms), and the "
+    "formulas are compared with RFC 791's procedure: (F-DECIDE) fragment() is the decision table fits -> "
+    "DontFragment(unmodified header, body); does not fit and DF -> Discard; otherwise Fragmented(Fragmentation::new(mtu)"
+    ".fragment(header, body).fragments), with the non-strict test total_length <= mtu; (F-MF) the only write of the "
+    "more-fragments flag is set_is_last_fragment(false) on the first piece's header copy - the remainder and a piece "
+    "that already fits keep the flag they arrived with (MF <- OMF), so by induction over the recursion MF is set on all "
+    "pieces but the one ending the original datagram, also under repeated fragmentation; (F-UNIT) with NFB = "
+    "(mtu - IHL*4)/8 the first piece is (header{TL = IHL*4 + NFB*8}, first NFB*8 octets), the remainder is "
+    "(header{TL - NFB*8, FO + NFB}, rest) and is fragmented again, and no other header field is rewritten. The "
+    "comparison is modulo renaming of locals, statement order and algebraic spelling. Not decided: that pieces fit "
+    "the MTU, are contiguous and carry the right bytes for all lengths/MTUs (16-bit arithmetic with recursion).")
 ASSUMPTIONS = ["Message::cut(n) splits off exactly the first n bytes (C07, not decided numerically)"]
 
 FRAGS = "fragmentation::Fragments"
